@@ -153,7 +153,7 @@ Fixpoint eval_targets_c (X : sem) (ord : oracle) (ko : bkor) (pidf : link -> lis
   match cps with
   | [] => (([], st), cs)
   | c :: r =>
-    let mds := get_field X (sub ord i) st c in
+    let mds := get_field X (sub ord i) st (with_rt st c) in
     let '(ins, cs1) := field_inputs_cached pidf l 0 (attach_keys (ko [i]) 0 mds) cs in
     let ms := matches_of_inputs X neg o mds ins in
     (* every match runs tx.matchVariable at once: the next target reads the updated MATCHED_* *)
@@ -164,7 +164,7 @@ Fixpoint eval_targets_c (X : sem) (ord : oracle) (ko : bkor) (pidf : link -> lis
 Definition link_matches_c (X : sem) (ord : oracle) (ko : bkor) (pidf : link -> list nat) (st : state)
            (l : link) (cs : b_cst) : (list mdata * state) * b_cst :=
   match l_kind l with
-  | LAction svs => (([unknown_md], fold_left apply_setvar svs (match_variable st unknown_md)), cs)
+  | LAction svs => (([unknown_md], fold_left apply_action svs (match_variable st unknown_md)), cs)
   | LRule neg o => eval_targets_c X ord ko pidf st l neg o 0 (compile_items X (l_items l) []) cs
   end.
 
@@ -195,7 +195,7 @@ Fixpoint eval_rules_c (X : sem) (ord : oracle) (ko : bkor) (pidf : link -> list 
   | [] => (([], st), cs)
   | r :: rest =>
     if in_phase ph r then
-      let '((res, st'), cs1) := eval_rule_c X (sub ord i) (ksub ko i) pidf (set_mvars st []) r cs in
+      let '((res, st'), cs1) := eval_rule_c X (sub ord i) (ksub ko i) pidf (rule_start st r) r cs in
       let '((out, st''), cs2) := eval_rules_c X ord ko pidf st' ph (S i) rest cs1 in
       ((match res with
         | Some mds => if (r_id r =? 0)%N then out else (r_id r, mds) :: out
